@@ -210,6 +210,7 @@ def check_managed_thread(chk, prog):
             cfg = op.cfg
             stores = []
             asserted = []
+            order_sites = chk.__dict__.setdefault('_c20_order_sites', [])
             user_calls = []
             for c in op.walk():
                 if c.get('k') not in CALL_KINDS:
@@ -232,6 +233,7 @@ def check_managed_thread(chk, prog):
                         asserted.append(c)
                         continue
                     stores.append((bool(val), c))
+                    order_sites.append((op, c, 'store', args[1] if len(args) > 1 else None))
                 elif callee in ('std::forward', 'std::move') or c.get('k') == 'CXXConstructExpr':
                     continue
                 else:
@@ -265,6 +267,11 @@ def check_managed_thread(chk, prog):
             chk.check(good, 'R2c', f.name, what, op.loc(), detail)
     # R2d
     for f in prog.funcs(cls='celma::common::ManagedThread', short='isActive'):
+        for c in f.calls():
+            q = c.get('callee', '')
+            if q.startswith('std::') and 'atomic' in q and q.split('(')[0].endswith('::load'):
+                a = children(c)[1:]
+                chk.__dict__.setdefault('_c20_order_sites', []).append((f, c, 'load', a[0] if a else None))
         atomic_read = any(c.get('callee', '').startswith('std::') and
                           ('::load' in c['callee'] or 'operator' in c['callee']) and
                           any(x.get('k') == 'MemberExpr' and x.get('ref', {}).get('dk') == 'Field'
@@ -317,6 +324,34 @@ def check_managed_thread(chk, prog):
         chk.check(bool(joins) and not off, 'R2e', f.name, 'the destructor joins the thread on every path on which the '
                   'handle is joinable', f.loc(), '; '.join(str(o) for o in off[:3]) if off else 'no join()')
 
+def memory_order_of(arg):
+    """name of the std::memory_order enumerator an argument denotes; None = defaulted (seq_cst); '?' = not a constant"""
+    if arg is None or arg.get('k') == 'CXXDefaultArgExpr':
+        return None
+    for x in walk(arg):
+        if x.get('k') == 'DeclRefExpr' and x.get('ref', {}).get('dk') == 'EnumConstant':
+            return x['ref'].get('name') or x['ref'].get('q', '').split('::')[-1]
+    return '?'
+
+
+def r2f_flag_ordering(chk):
+    """The flag is the only channel through which another thread learns, without joining, that the function has
+    started / has returned.  `neither involves a data race`: what the observer does after it saw the flag must be
+    ordered behind what the thread did before it wrote the flag - every store of the flag in the thread function
+    releases and the load in isActive() acquires (or both are sequentially consistent)."""
+    sites = chk.__dict__.get('_c20_order_sites', [])
+    chk.require(len([s for s in sites if s[2] == 'store']) >= 2 and any(s[2] == 'load' for s in sites),
+                'flag stores/loads with a memory order: %d' % len(sites))
+    for f, c, kind, arg in sites:
+        mo = memory_order_of(arg)
+        good = {'store': (None, 'memory_order_release', 'memory_order_seq_cst', 'release', 'seq_cst'),
+                'load': (None, 'memory_order_acquire', 'memory_order_seq_cst', 'acquire', 'seq_cst')}[kind]
+        chk.check(mo in good, 'R2f', f.name,
+                  'the %s of the active flag %s' % (kind, 'releases' if kind == 'store' else 'acquires'), f.loc(c),
+                  'memory order is %s: an observer that sees the new flag value is not ordered behind the writes of '
+                  'the thread function (data race on whatever the function produced)' % mo)
+
+
 def run(chk):
     units = [os.path.join(VERIF, 'drivers', 'concurrency.cpp')]
     # every Singleton<> instantiation in the library
@@ -346,5 +381,7 @@ def run(chk):
     chk.rule('R2c', 'flag set/cleared around the user function on every normal path', 2)
     chk.rule('R2d', 'isActive() reads the flag through the atomic', 1)
     chk.rule('R2e', 'the destructor joins a joinable thread and never detaches', 2)
+    chk.rule('R2f', 'release/acquire pairing of the active flag', 3)
     check_singleton(chk, prog)
     check_managed_thread(chk, prog)
+    r2f_flag_ordering(chk)
